@@ -16,6 +16,7 @@ import (
 	"bytes"
 	"fmt"
 	"image"
+	"image/color"
 	"time"
 
 	webp "github.com/deepteams/webp"
@@ -69,12 +70,12 @@ type stillKind struct {
 }
 
 // c15Still evaluates one (image, options, metadata triple).
-func c15Still(c *Ctx, k stillKind, img *image.NRGBA, base *webp.EncoderOptions, icc, exif, xmp blob, ref *stillRef) {
+func c15Still(c *Ctx, k stillKind, img image.Image, base *webp.EncoderOptions, icc, exif, xmp blob, ref *stillRef) {
 	c.D.Evaluations++
 	o := *base
 	o.ICC, o.EXIF, o.XMP = icc.Data, exif.Data, xmp.Data
 	name := fmt.Sprintf("%s|icc=%s|exif=%s|xmp=%s", k.Name, icc.Name, exif.Name, xmp.Name)
-	replay := map[string]any{"kind": k.Name, "icc": icc.Name, "exif": exif.Name, "xmp": xmp.Name, "w": img.Rect.Dx(), "h": img.Rect.Dy(), "quality": o.Quality}
+	replay := map[string]any{"kind": k.Name, "icc": icc.Name, "exif": exif.Name, "xmp": xmp.Name, "w": img.Bounds().Dx(), "h": img.Bounds().Dy(), "quality": o.Quality, "exact": o.Exact, "source": fmt.Sprintf("%T", img)}
 	data, err := encodeFile(img, &o)
 	if err != nil {
 		c.Violate("encode-with-metadata-fails", "Encode failed: "+err.Error(), replay)
@@ -85,7 +86,7 @@ func c15Still(c *Ctx, k stillKind, img *image.NRGBA, base *webp.EncoderOptions, 
 		c.Violate("encode-with-metadata-fails", "encoder parts failed: "+err.Error(), replay)
 		return
 	}
-	w, h := img.Rect.Dx(), img.Rect.Dy()
+	w, h := img.Bounds().Dx(), img.Bounds().Dy()
 	// correspondence line
 	pl, p := safeParse(data)
 	d, derr := mux.NewDemuxer(data)
@@ -275,6 +276,49 @@ func nrgbaDigest(img image.Image) string {
 	return fnvs(n.Pix)
 }
 
+type c15Source struct {
+	name string
+	img  image.Image
+}
+
+// opaque wrapper: hides the concrete type so that the encoders take their generic At() path
+type c15Wrap struct{ image.Image }
+
+// c15Sources: the same kind of picture (translucent and fully transparent pixels that still carry colour)
+// as NRGBA, premultiplied RGBA (incl. pixels like {0,7,0,7}), a sub-image, Gray, Paletted and a generic wrapper.
+func c15Sources(rng *Rand, w, h int) []c15Source {
+	n := image.NewNRGBA(image.Rect(0, 0, w, h))
+	r := image.NewRGBA(image.Rect(0, 0, w, h))
+	g := image.NewGray(image.Rect(0, 0, w, h))
+	pal := color.Palette{color.NRGBA{0, 0, 0, 0}, color.NRGBA{255, 0, 0, 255}, color.NRGBA{10, 200, 30, 128}, color.NRGBA{90, 90, 255, 7}, color.NRGBA{200, 100, 50, 0}}
+	pi := image.NewPaletted(image.Rect(0, 0, w, h), pal)
+	alphas := []uint8{255, 0, 7, 128, 254, 1, 200}
+	for y := 0; y < h; y++ {
+		for x := 0; x < w; x++ {
+			a := alphas[(x+2*y)%len(alphas)]
+			cr, cg, cb := uint8(30+x*31), uint8(200-y*17), uint8(rng.Intn(256))
+			n.SetNRGBA(x, y, color.NRGBA{cr, cg, cb, a}) // alpha 0 pixels keep their colour (Exact)
+			// premultiplied: channel <= alpha; includes {0,a,0,a}-like values
+			pr, pg, pb := uint8(int(cr)*int(a)/255), uint8(a), uint8(0)
+			if (x+y)%3 == 0 {
+				pr, pg, pb = 0, a, 0
+			}
+			r.SetRGBA(x, y, color.RGBA{pr, pg, pb, a})
+			g.SetGray(x, y, color.Gray{uint8(x*40 + y*3)})
+			pi.SetColorIndex(x, y, uint8((x+3*y)%len(pal)))
+		}
+	}
+	r.SetRGBA(0, 0, color.RGBA{0, 7, 0, 7})
+	r.SetRGBA(1, 0, color.RGBA{5, 2, 4, 6})
+	big := image.NewNRGBA(image.Rect(0, 0, w+4, h+3))
+	for i := range big.Pix {
+		big.Pix[i] = byte(rng.U64())
+	}
+	sub := big.SubImage(image.Rect(2, 1, 2+w, 1+h))
+	return []c15Source{{"nrgba", n}, {"rgba-premul", r}, {"nrgba-subimage", sub}, {"gray", g}, {"paletted", pi},
+		{"wrapped-nrgba", c15Wrap{n}}, {"wrapped-rgba", c15Wrap{r}}}
+}
+
 func main() {
 	Main("c15", func(c *Ctx) {
 		c.D.Rule = "blobs {nil, empty, 1 byte, odd, even, chunk-header look-alikes, \"RIFF\", 64 KB, 64 KB+1} for ICC x EXIF x XMP (all 8 presence subsets with every blob in each position, plus random triples) x stills {lossy, lossless, lossy+alpha raw/compressed} and animations {1, 3 frames x lossless/lossy}; non-trivial = distinct (kind, blob triple, parities of all chunk payloads)"
@@ -330,6 +374,28 @@ func main() {
 				// 64 KB in all three positions at once (odd + even)
 				if ki == 0 || c.Thorough() {
 					c15Still(c, k, img, o, blobs[8], blobs[9], blobs[8], &ref)
+				}
+			}
+		}
+		// source image types x Exact: the metadata (buffered) and no-metadata (streaming) paths must embed the
+		// same bitstream and decode to the same pixels whatever the concrete type of the source picture is
+		{
+			nilb := blobs[0]
+			w, h := 7, 5
+			for _, src := range c15Sources(rng, w, h) {
+				for _, lossless := range []bool{true, false} {
+					for _, exact := range []bool{false, true} {
+						o := webp.DefaultOptions()
+						o.Lossless = lossless
+						o.Exact = exact
+						o.Quality = 80
+						k := stillKind{fmt.Sprintf("src-%s-lossless=%v-exact=%v", src.name, lossless, exact), lossless, 0}
+						var ref stillRef
+						c15Still(c, k, src.img, o, nilb, nilb, nilb, &ref)
+						for _, tr := range [][3]int{{3, 0, 0}, {0, 4, 0}, {0, 0, 2}, {2, 3, 4}, {6, 0, 3}} {
+							c15Still(c, k, src.img, o, small[tr[0]], small[tr[1]], small[tr[2]], &ref)
+						}
+					}
 				}
 			}
 		}
